@@ -128,6 +128,11 @@ inductive Cb
   | sleepDone (tid : Tid)
 deriving Repr, Inhabited
 
+/-- ghost events of one service instance: `start()`, `stop()`, an OfferService handed to `queue_send` (to the multicast group,
+or `remote` = as a unicast answer), a StopOffer handed to `queue_send` -/
+inductive OEv | start | stop | offer (remote : Bool) | stopOffer
+deriving DecidableEq, Repr, Inhabited
+
 inductive Out
   | send (dest : Dest) (bytes : Bytes)
   | offered (l : LId) (k : SvcKey) (a : Addr)
@@ -169,6 +174,7 @@ structure Stack where
   storeLog : List (Bool × SvcKey × Addr) := []   -- ghost: every store-level notification (true = offered) in order
   refreshLog : List (Addr × SvcKey × Nat × Nat) := []   -- ghost: (source, service, time, ttl) of every TimedStore.refresh of found_services
   armLog : List (Cb × Nat × Nat) := []           -- ghost: (expiry callback, time, ttl) of every TimedStore.refresh that stores an entry (both stores)
+  offLog : List (Nat × OEv × Nat) := []          -- ghost: (instance, event, time) of every start / stop of an instance and of every offer / StopOffer it hands to queue_send
   subMarks : List (Option Nat × Nat) := []       -- ghost: (none, time) of every subscriber start; (some n, time) of every refresh round, run by subscribe task n
   sendLog : List (Dest × (Bool × Nat)) := []     -- ghost: every (destination, (reboot flag, session id)) send_sd drew from the session storage
   flushLog : List (Dest × List SDEntry) := []    -- ghost: every batch of queued entries handed to send_sd (zero timeout: singletons; else a closed window)
@@ -323,13 +329,17 @@ def sleepDone (s : Stack) (tid : Tid) : Stack :=
 def getInst (s : Stack) (i : Nat) : Option Instance := s.instances[i]?
 def setInst (s : Stack) (i : Nat) (x : Instance) : Stack := { s with instances := s.instances.set i x }
 
+/-- ghost: note an event of instance i -/
+def logOffer (s : Stack) (i : Nat) (e : OEv) : Stack := { s with offLog := s.offLog ++ [(i, e, s.loop.now)] }
+
 /-- `ServiceInstance._send_offer(remote, stop)` -/
 def sendOffer (s : Stack) (i : Nat) (remote : Dest) (stop : Bool) : Stack :=
   match s.getInst i with
   | none => s
   | some x =>
     if !stop && (x.task.isNone || (remote.isSome && !x.canAnswer)) then s   -- nothing follows a StopOffer; no answers in the initial wait phase
-    else s.queueSend (x.service.createOfferEntry (if stop then 0 else s.tm.announceTtl)) remote
+    else (s.logOffer i (if stop then .stopOffer else .offer remote.isSome)).queueSend
+           (x.service.createOfferEntry (if stop then 0 else s.tm.announceTtl)) remote
 
 def pow2 (i : Nat) : Nat := 2 ^ i
 
@@ -372,7 +382,7 @@ def instStart (s : Stack) (i : Nat) : Stack :=
   | none => s
   | some x =>
     if x.task.isSome then s.emit (.raised .runtime) else
-    let r := (s.setInst i { x with canAnswer := false }).createTask (.offer i)
+    let r := ((s.logOffer i .start).setInst i { x with canAnswer := false }).createTask (.offer i)
     match r.1.getInst i with
     | some x => r.1.setInst i { x with task := some r.2 }
     | none => r.1
@@ -407,7 +417,7 @@ def instStop (s : Stack) (i : Nat) : Stack :=
     match x.task with
     | none => s.emit (.raised .runtime)
     | some tid =>
-      let s := s.cancelTask (.offer i, tid)
+      let s := (s.logOffer i .stop).cancelTask (.offer i, tid)
       let s := s.setInst i { x with task := none, canAnswer := false }
       let s := if s.tm.cyclicOfferDelay = 0 then s.sendOffer i none true else s
       s.subsStopAll i
